@@ -20,7 +20,7 @@ from coqterm import cbool
 
 IMPORTS = "From XV Require Import Base.Str Model.Bind Model.Parser Model.ParserCorr Spec.Inject."
 
-EXTRAS_C10 = ["textattr", "wildtail", "scalarwild", "fixed", "required", "anytype", "union"]
+EXTRAS_C10 = ["poly", "wrappers", "textattr", "wildtail", "scalarwild", "fixed", "required", "anytype", "union"]
 
 
 # ------------------------------------------------------------------ Coq evaluation returning one code per case
